@@ -9,6 +9,7 @@ fn main() {
     let args = rv_common::parse_args();
     let code = match args.prop.as_str() {
         "C08" => c08::run(&args),
+        "C08-depth-probe" => c08::depth_probe(&args),
         other => {
             eprintln!("rv-auth: no check named {other}");
             2
